@@ -250,6 +250,26 @@ def toys():
     return out
 
 
+def shared_constraint_toys():
+    import sageopt.coniclifts as cl
+    out = []
+    x = cl.Variable(shape=(2,), name='x')
+    ca, cb, cc = x[0] <= 4, x[1] <= 3, x[0] + x[1] <= 5
+    p1 = cl.Problem(cl.MAX, x[0] + x[1], [ca, cb])
+    out.append(('shared_constraints_first', p1.solve(solver='ECOS', verbose=False), 7.0))
+    p2 = cl.Problem(cl.MAX, x[0] + x[1], [ca, cb, cc])
+    out.append(('shared_constraints_second', p2.solve(solver='ECOS', verbose=False), 5.0))
+    p3 = cl.Problem(cl.MAX, 2 * x[0] + x[1], [cc, cb, ca])
+    out.append(('shared_constraints_reordered', p3.solve(solver='ECOS', verbose=False), 9.0))
+    out.append(('shared_constraints_first_again', p1.solve(solver='ECOS', verbose=False), 7.0))
+    # sum of exponentials with a repeated argument: exp(x0) + exp(x0) + 2 exp(x1) <= 1, max x0 + x1 = log(1/4) + log(1/4)
+    y = cl.Variable(shape=(2,), name='y')
+    alpha = np.array([[1.0, 0.0], [1.0, 0.0], [0.0, 1.0]])
+    p4 = cl.Problem(cl.MAX, y[0] + y[1], [cl.weighted_sum_exp(np.array([1.0, 1.0, 2.0]), alpha @ y) <= 1])
+    out.append(('repeated_exp_argument', p4.solve(solver='ECOS', verbose=False), 2 * math.log(0.25)))
+    return out
+
+
 def real_ecos_stream(ctx):
     fails = []
     with warnings.catch_warnings():
@@ -267,8 +287,19 @@ def real_ecos_stream(ctx):
                     fails.append('%s: values %r should be NaN' % (name, got.tolist()))
             elif not np.allclose(got, evals, atol=1e-4):
                 fails.append('%s: values %r, expected %r (non-participating components must be 0)' % (name, got.tolist(), evals))
-        # forced failure: max_iters=1
         import sageopt.coniclifts as cl
+        # constraint objects shared by successive Problems (the second list is longer, so the shared ones sit at other row offsets),
+        # and an exponential sum with a repeated argument; optima known in closed form
+        try:
+            shared = shared_constraint_toys()
+        except Exception as e:
+            shared = []
+            fails.append('shared_constraints: building or solving a Problem that re-uses constraint objects raised %r' % (e,))
+        for name, got, want in shared:
+            ctx.count('real_ecos', name)
+            if not (got[0] == 'solved' and abs(got[1] - want) <= 1e-5 * (1 + abs(want))):
+                fails.append('%s: reported (%s, %r), expected (solved, %r)' % (name, got[0], got[1], want))
+        # forced failure: max_iters=1
         x = cl.Variable(shape=(2,), name='x')
         prob = cl.Problem(cl.MIN, x[0], [cl.vector2norm(x) <= 1, cl.weighted_sum_exp(np.array([1.0]), x[1:]) <= 3])
         st, val = prob.solve(solver='ECOS', verbose=False, max_iters=1)
